@@ -155,14 +155,27 @@ fn final_of(s: &ProgramState) -> FinalState {
 /// Single-stepped run of `ready` over `storage` (consumed; returned in the result).
 pub fn probe_run<P, Q>(
     w: &World, storage: MemoryStorage, ready: Ready<Script>, max_steps: usize,
+    pre_cb: impl FnMut(&mut Vm, &Pre) -> P,
+    post_cb: impl FnMut(&Vm, &Pre, &P, &Post) -> Q,
+) -> ProbeRun<P, Q> {
+    probe_run_warm(w, storage, vec![], ready, max_steps, pre_cb, post_cb)
+}
+
+/// `probe_run` on an interpreter that has already executed the `warm` transactions (plain
+/// `transact`, no stepping) over the same storage: what an earlier transaction left in the
+/// instance (input-contract set, caches, frames) must not influence the observed one.
+pub fn probe_run_warm<P, Q>(
+    w: &World, storage: MemoryStorage, warm: Vec<Ready<Script>>, ready: Ready<Script>, max_steps: usize,
     mut pre_cb: impl FnMut(&mut Vm, &Pre) -> P,
     mut post_cb: impl FnMut(&Vm, &Pre, &P, &Post) -> Q,
 ) -> ProbeRun<P, Q> {
     let rec = RecStorage::new(storage);
     let mut vm: Vm = Interpreter::with_storage(MemoryInstance::new(), rec, w.interpreter_params());
+    for t in warm { vm.set_single_stepping(false); let _ = vm.transact(t); }
     vm.set_single_stepping(true);
+    let mark0 = vm.as_ref().mark();
     let mut state: Result<ProgramState, String> = vm.transact(ready).map(|t| *t.state()).map_err(|e| format!("{e:?}"));
-    let init_events = vm.as_ref().since(0);
+    let init_events = vm.as_ref().since(mark0);
     let mut receipts_seen = vm.receipts().len();
     if !matches!(state, Ok(ProgramState::RunProgram(_))) { receipts_seen = 0; }
     let mut steps = vec![];
